@@ -90,6 +90,25 @@ CHECKS = {
                 engine='witness',
                 note='trusted: clang-14 front end in -std=c99 and -std=c++17 modes; subsets larger than two are covered by the pairwise '
                      'argument (a name clash needs two declarations) plus the all-header units'),
+
+    'C07': dict(cat='proof', tech='abstract interpretation of the VSS encoder per shape (bounded lengths, symbolic contents)',
+                text='SetVssPath + SetVssData are interpreted for both address modes, all 24 datatypes and an enumerated set of path lengths '
+                     'and element counts (quick 458 shapes, thorough about 4800 incl. 65535-octet strings, 1024-element arrays, 2026-octet '
+                     'paths) on exact-extent message regions whose header pins only addr_mode/vss_datatype; path bytes, static id, values and '
+                     'all other memory are symbolic. The image must equal the reference encoder of acf-vss.md and nothing else may change; '
+                     'reserved modes and datatype codes must write nothing. Proof per shape for all contents; bounded in the two lengths.',
+                ref='4.7', note=TB + '; the reference encoder (verif/vss.py) is my reading of acf-vss.md; uniformity in the lengths is not proved'),
+    'C08': dict(cat='proof', tech='abstract interpretation of the VSS decoder per shape (bounded lengths, symbolic contents)',
+                text='CalcVssPathLength, GetVssPath and GetVssData are interpreted on exact-extent messages with control octets from the '
+                     'reference encoder and symbolic payload; results must equal the reference decoder bit for bit (floats are moved as bit '
+                     'patterns), reads must stay inside the message, writes inside the reported length, and a null destination must leave '
+                     'everything but data_length untouched for all 13 variable-length types.', ref='4.8',
+                note=TB + '; bounded in path length and element count as C07'),
+    'C10': dict(cat='proof', tech='abstract interpretation of pack/count/unpack per list shape',
+                text='Serialize, count and deserialize are interpreted for lists of 0..4 strings (lengths 0..7), 300 strings (thorough: '
+                     '1000, 2000 strings, one 65533-octet string) on exact-extent regions with symbolic bytes; unpack with requested counts '
+                     'k-1, k, k+2, with and without destinations; results must equal the reference packing and no access may leave the '
+                     'recorded length or the destinations.', ref='4.10', note=TB + '; bounded in list length and string lengths'),
 }
 
 PENDING = ['C05', 'C06', 'C07', 'C08', 'C09', 'C10', 'C12', 'C13', 'C14', 'C15', 'C16', 'C17', 'C18', 'C19', 'C20']
